@@ -16,7 +16,7 @@ func genHist(r *vh.Rand, prop string, idx int) Hist {
 	c := stg.Conf{
 		TimeUnitSec:        r.Pick64([]int64{3600, 3600, 86400, 7200, 1000}),
 		ValidatorReward:    pickF(r, []float64{0.025, 0.025, 0.1, 0, 0.5, 1.0}),
-		BlobberSlash:       pickF(r, []float64{0.1, 0, 0.1, 0, 0.5}),
+		BlobberSlash:       pickF(r, []float64{0.1, 0, 0.1, 0, 0.5, 1}),
 		CancellationCharge: pickF(r, []float64{0.2, 0.2, 0, 0.5, 1.0}),
 		MaxWritePrice:      r.PickU64([]uint64{100e10, 100e10, 4e9}),
 		MinWritePrice:      0,
@@ -283,6 +283,26 @@ func (g *Gen) Next(run *Run) Op {
 		}
 		if n < len(bl) {
 			bl = bl[:n]
+		}
+		if r.Chance(1, 3) && len(rest) > 0 && len(good) >= d+p {
+			// more candidates than shards: ineligible ones (price out of range, no capacity, killed, shut down,
+			// not enough stake) before and between the eligible ones
+			bl = nil
+			gi, ri := 0, 0
+			for gi < d+p || (ri < len(rest) && len(bl) < d+p+3) {
+				if ri < len(rest) && (gi >= d+p || r.Chance(1, 2)) {
+					bl = append(bl, rest[ri])
+					ri++
+				} else if gi < len(good) {
+					bl = append(bl, good[gi])
+					gi++
+				} else {
+					break
+				}
+			}
+			if r.Chance(1, 4) && gi < len(good) {
+				bl = append(bl, good[gi]) // and a spare eligible one at the end
+			}
 		}
 		switch r.Intn(40) {
 		case 0:
@@ -577,6 +597,18 @@ func (g *Gen) Next(run *Run) Op {
 		if r.Chance(1, 4) {
 			o.C = cli()
 		}
+		if r.Chance(1, 3) {
+			// lock for somebody else whose read pool is larger than the sender's
+			best := -1
+			for c := refClient; c < refClient+h.NCli; c++ {
+				if c != o.S && s.RP[c] > s.RP[o.S] && (best < 0 || s.RP[c] > s.RP[best]) {
+					best = c
+				}
+			}
+			if best >= 0 {
+				o.C = best
+			}
+		}
 		return o
 	case "rpunlock":
 		return Op{K: "rpunlock", Dt: dt, S: cli()}
@@ -806,6 +838,172 @@ func (g *Gen) Script(run *Run) *Op {
 		return &Op{K: "freealloc", Dt: 5, S: refClient + r.Intn(h.NCli), A: g.NLabel, B: 0, N: nonce, Bl: bl, F: pickF(r, []float64{1, 0.5, 2})}
 	}
 	switch g.script {
+	case "delete-kill-replace":
+		// data stored for a while, then everything deleted (used size 0, value of the elapsed time still in the pool),
+		// the blobber killed or shut down, then replaced
+		switch {
+		case g.step == 0:
+			return newAlloc()
+		case g.step == 1:
+			return upload(0, false)
+		case g.step == 2:
+			l, a := firstOpen()
+			if a == nil {
+				break
+			}
+			for _, d := range a.BAs {
+				if d.Used > 0 {
+					g.aux = d.Blobber
+					return &Op{K: "commit", Dt: r.Pick64([]int64{300, 600, 100}), S: d.Blobber, A: l, B: d.Blobber, C: a.Owner, N: -d.Used}
+				}
+			}
+		case g.step == 3:
+			if r.Chance(1, 3) {
+				return &Op{K: "shutdown", Dt: 5, S: refOwner, B: g.aux}
+			}
+			return &Op{K: "kill", Dt: 5, S: refOwner, B: g.aux}
+		case g.step == 4:
+			l, a := firstOpen()
+			if a == nil {
+				break
+			}
+			ad := -1
+			for _, b := range r.Perm(nb) {
+				if !inAlloc(a, b) && g.eligible(s, h, b, a.BAs[0].Size) {
+					ad = b
+				}
+			}
+			if ad < 0 || !inAlloc(a, g.aux) {
+				break
+			}
+			return &Op{K: "update", Dt: 5, S: a.Owner, A: l, Ad: ad + 1, Rm: g.aux + 1, V: r.PickU64([]uint64{0, 1e10})}
+		case g.step == 5:
+			l, a := firstOpen()
+			if a == nil {
+				break
+			}
+			return &Op{K: "cancel", Dt: 5, S: a.Owner, A: l}
+		}
+	case "timed-out-challenge-then-close":
+		// a passed challenge, then a later one that nobody answers until it has timed out and is swept;
+		// the allocation is closed while the swept challenge is the blobber's newest settled one
+		switch {
+		case g.step == 0:
+			return newAlloc()
+		case g.step == 1:
+			return upload(0, false)
+		case g.step <= 5:
+			l, a := firstOpen()
+			if a == nil {
+				break
+			}
+			passed := false
+			for _, d := range a.BAs {
+				if d.Succ > 0 {
+					passed = true
+				}
+			}
+			if !passed {
+				if len(a.OpenCh) > 0 {
+					return &Op{K: "chalresp", Dt: r.Pick64([]int64{1, 5}), A: l, N: 0}
+				}
+				return &Op{K: "genchal", Dt: r.Pick64([]int64{60, 300}), S: refClient}
+			}
+			g.step = 5
+			return &Op{K: "genchal", Dt: r.Pick64([]int64{100, 300, 600}), S: refClient}
+		case g.step == 6:
+			// many rounds later: the open challenge has timed out and is swept by the next generation
+			return &Op{K: "genchal", Dt: r.Pick64([]int64{60, 300}), Dr: h.Conf.MaxChalRounds + 10, S: refClient}
+		case g.step == 7:
+			l, a := firstOpen()
+			if a == nil {
+				break
+			}
+			if r.Chance(2, 3) {
+				return &Op{K: "cancel", Dt: r.Pick64([]int64{5, 60, 300}), S: a.Owner, A: l}
+			}
+			return &Op{K: "finalize", Dt: a.Exp - run.Now + r.Pick64([]int64{0, 1, 100}), Dr: r.Pick64([]int64{0, 10}), S: a.Owner, A: l}
+		}
+	case "read-pool-lock-for-other":
+		// one client holds a read pool, another one locks tokens with target_id = the first; then both unlock
+		a, b := refClient, refClient+1%h.NCli+0
+		switch g.step {
+		case 0:
+			return &Op{K: "rplock", Dt: 5, S: a, V: r.PickU64([]uint64{1e10, 5e9})}
+		case 1:
+			if r.Chance(1, 2) {
+				return &Op{K: "rplock", Dt: 5, S: b, V: r.PickU64([]uint64{1e8, 1e9})}
+			}
+			return &Op{K: "genchal", Dt: 5, S: refClient}
+		case 2:
+			return &Op{K: "rplock", Dt: 5, S: b, C: a, V: r.PickU64([]uint64{1e9, 1e8, 7})}
+		case 3:
+			return &Op{K: "rpunlock", Dt: 5, S: b}
+		case 4:
+			return &Op{K: "rpunlock", Dt: 5, S: a}
+		}
+	case "ineligible-candidates":
+		// allocations whose candidate lists are longer than data+parity with candidates isActive refuses
+		// (price above the range, killed) placed before / between the blobbers that get selected
+		switch {
+		case g.step == 0:
+			return newAlloc()
+		case g.step == 1 && r.Chance(1, 2):
+			// make one more blobber ineligible
+			for _, b := range r.Perm(nb) {
+				in := false
+				for _, l := range g.openLabels(s) {
+					if inAlloc(s.Allocs[l], b) {
+						in = true
+					}
+				}
+				if !in && !s.Blob[b].Killed {
+					return &Op{K: "kill", Dt: 5, S: refOwner, B: b}
+				}
+			}
+			return &Op{K: "genchal", Dt: 5, S: refClient}
+		case g.step <= 4:
+			o := newAlloc()
+			// price range that shuts out the dearest blobber; candidates: dear / killed ones first, then the cheap ones
+			var cheap, out []int
+			var maxWP uint64
+			for b := 0; b < nb; b++ {
+				if s.Blob[b].WP > maxWP {
+					maxWP = s.Blob[b].WP
+				}
+			}
+			bs := int64(math.Ceil(float64(o.N) / float64(o.D)))
+			for _, b := range r.Perm(nb) {
+				if g.eligible(s, h, b, bs) && (s.Blob[b].WP < maxWP || maxWP == 0) {
+					cheap = append(cheap, b)
+				} else {
+					out = append(out, b)
+				}
+			}
+			if len(cheap) < o.D+o.P || len(out) == 0 {
+				return o
+			}
+			if maxWP > 0 {
+				o.W = int64(maxWP - 1)
+			}
+			bl := []int{out[0]}
+			for i, b := range cheap {
+				if i < o.D+o.P {
+					bl = append(bl, b)
+					if i == 0 && len(out) > 1 {
+						bl = append(bl, out[1])
+					}
+				}
+			}
+			o.Bl = bl
+			return o
+		case g.step == 5, g.step == 6:
+			l, a := firstOpen()
+			if a == nil {
+				break
+			}
+			return &Op{K: "cancel", Dt: 5, S: a.Owner, A: l}
+		}
 	case "assigner-key-rotation":
 		// markers redeemed, the owner registers a new key for the assigner (and later the old one again);
 		// markers signed with the current, the retired and a never registered key in between
